@@ -24,7 +24,7 @@ def read_lammpslog(filename) -> [pd.DataFrame]:
         data = f.readlines()
 
     # ----get how many sections are there----
-    start = [i for i, val in enumerate(data) if val.startswith("Step ")]
+    start = [i for i, val in enumerate(data) if val.lstrip().startswith("Step ")]
     end = [i for i, val in enumerate(data) if val.startswith("Loop time of ")]
 
     if data[-1] != "\n":
